@@ -1077,6 +1077,50 @@ def _merge_parameter_copies(fn):
             break
 
 
+def _forward_field_aliases(stmts):
+    """v = self.f ; ...reads of v...   ->   the reads name self.f, up to the next statement that stores v or self.f or calls a method of
+    self (which may rebind the field).  The shape an unrolled table-driven loop leaves: `field = self.a; if field is not None: field.write(s)`
+    repeated with the same local.  The assignment itself stays (a dead store at worst)."""
+    out = list(stmts)
+    for s in out:
+        for fld in ('body', 'orelse', 'finalbody'):
+            b = getattr(s, fld, None)
+            if isinstance(b, list) and b and isinstance(b[0], ast.stmt) and not isinstance(s, (ast.FunctionDef, ast.ClassDef)):
+                setattr(s, fld, _forward_field_aliases(b))
+        if isinstance(s, ast.Try):
+            for h in s.handlers:
+                h.body = _forward_field_aliases(h.body)
+    i = 0
+    while i < len(out):
+        st = out[i]
+        if isinstance(st, ast.Assign) and len(st.targets) == 1 and isinstance(st.targets[0], ast.Name) and isinstance(st.value, ast.Attribute) \
+                and isinstance(st.value.value, ast.Name) and st.value.value.id == 'self':
+            v, f = st.targets[0].id, st.value.attr
+            j = i + 1
+            while j < len(out):
+                t = out[j]
+                stop = False
+                for n in ast.walk(t):
+                    if isinstance(n, ast.Name) and n.id == v and isinstance(n.ctx, (ast.Store, ast.Del)):
+                        stop = True
+                    if isinstance(n, ast.Attribute) and n.attr == f and isinstance(n.ctx, (ast.Store, ast.Del)):
+                        stop = True
+                    if isinstance(n, ast.Call) and isinstance(n.func, ast.Attribute) and isinstance(n.func.value, ast.Name) and n.func.value.id == 'self':
+                        stop = True
+                    if isinstance(n, ast.Call) and isinstance(n.func, ast.Name) and n.func.id in ('setattr', 'delattr'):
+                        stop = True
+                if stop:
+                    # `v = <expr reading v>`: the right-hand side is evaluated before the store
+                    if isinstance(t, ast.Assign) and len(t.targets) == 1 and isinstance(t.targets[0], ast.Name) and t.targets[0].id == v \
+                            and not any(isinstance(n, ast.Call) for n in ast.walk(t.value)):
+                        t.value = _Subst({}, {v: st.value}).visit(t.value)
+                    break
+                out[j] = _Subst({}, {v: st.value}).visit(t)
+                j += 1
+        i += 1
+    return out
+
+
 def flatten(scope, fn, keep=(), module_level=False):
     fl = _Flattener(scope, keep, module_level)
     new = clone(fn)
@@ -1087,6 +1131,28 @@ def flatten(scope, fn, keep=(), module_level=False):
     # what became constant through the expansion (a prefix parameter bound to a literal ...) is folded like at parse time
     from .tables import _ConstStrings, _Getattr, _Simplify
     new = _Simplify().visit(_Getattr().visit(_ConstStrings().visit(new)))
+    # a constant table that only became visible through the expansion (a helper walking `fields`, called with self._FIELDS): the loops
+    # over it are unrolled and the lookups in it sunk like at parse time
+    mod_ = scope
+    while mod_ is not None and not isinstance(mod_, ast.Module):
+        mod_ = getattr(mod_, '_parent', None)
+    if mod_ is not None and any(isinstance(x, (ast.For, ast.Subscript)) or (isinstance(x, ast.Call) and isinstance(x.func, ast.Attribute) and x.func.attr == 'get') for x in ast.walk(new)):
+        from .tables import Tables, Expander
+        ex_ = mod_.__dict__.get('_flat_expander')
+        if ex_ is None:
+            ex_ = Expander.__new__(Expander)
+            ex_.t = Tables(mod_)
+            ex_.tree = mod_
+            ex_.n = 0
+            mod_.__dict__['_flat_expander'] = ex_
+        if ex_.t.mod or ex_.t.cls:
+            before_ = ast.dump(new)
+            new.body = ex_.block(new.body, scope.name if isinstance(scope, ast.ClassDef) else None, new)
+            if ast.dump(new) != before_:
+                new = _Simplify().visit(_Getattr().visit(_ConstStrings().visit(new)))
+                from .source import _FieldLocals
+                _FieldLocals().run(new)
+                new.body = _forward_field_aliases(new.body)
     from .source import _GuardedLocals, _Canon
     _GuardedLocals().function(new)
     new = _Canon().visit(new)
